@@ -23,6 +23,8 @@ def run(chk):
     chk.rule("LAYOUT.count", "the stored path count counts exactly the non-empty paths that the writers emit")
     chk.rule("LAYOUT.polytree", "CPolyPath: writer and sizer have shape 2 + DIM*N + SUM children; the tree writer is sized by the node sizer")
     chk.rule("LAYOUT.header", "the first stored element is the expression passed to new T[...]")
+    chk.rule("LAYOUT.cursor", "every call of a writer that shares the array cursor either passes it by reference or stores the returned next position "
+             "back into the cursor it passed")
     chk.rule("LAYOUT.z-codec", "USINGZ: every store of pt.z into an array slot is Reinterpret<element type>(pt.z) (or a same-type copy) and every load "
              "of a slot into z is Reinterpret<z_type>(slot) (or a same-type copy): the slot carries Z bit for bit in both directions")
     chk.rule("ROUND", "the export converters (and every scaling helper) hand doubles to Point64's rounding constructor; none converts to int64 with a "
@@ -35,6 +37,7 @@ def run(chk):
         e4.rule_layout(db, chk, cfg)
         ex = E5(db, chk, cfg).exported()
         e4.rule_forward(db, chk, cfg, ex)
+        e4.rule_cursor_threaded(db, chk, cfg)
         if "z" in cfg.split("+"):
             nz = e4.rule_z_codec(db, chk, cfg)
             if nz < 8:
